@@ -1008,7 +1008,7 @@ def check_module(ctx, name, items, mw, il, algos, cmap, macros=MACROS, art=True,
         branch = next(b for b in T["branches"] if eval_guard(b["guard"], eff, PY_HEX))
         tag = "macro=%s->%s" % ("unset" if macro is None else macro, branch["comment"].split("compression:")[-1].split("(")[0].strip())
         ctx.count("B/D-c/" + tag)
-        rep2 = dict(rep, macro=macro)
+        rep2 = dict(rep, macro=macro, literals=[short(src_, 200) for src_, _ in items[:12]], n_literals=len(items))
         if rc != 0:
             ctx.violation("module-does-not-build/" + tag, "%s: gcc: %s" % (name, log[-300:]), rep2)
             continue
@@ -1242,6 +1242,151 @@ def run_tables(ctx, impl, mw, il, algos, cmap):
         check_module(ctx, "many", items, mw, il, algos, cmap, macros=[], art_runs=False)
 
 
+# ---------------- codec boundary leg: repeats engineered to hit every token-form threshold of lzss_compress
+
+
+def lzss_thresholds(stage):
+    """offset / length thresholds of the current LZSS.py (via the C12 translator); fall-back: the pinned values"""
+    try:
+        from props import c12 as C12H
+        P = C12H.extract_params(stage)
+        return P
+    except Exception:
+        return {"shortMax": 0x7F, "midOffLim": 512, "midLenLim": 32, "longOffLim": 16384, "maxMatch": 258, "window": 16512}
+
+
+def _unique_trigram_seq(rng, alphabet, n):
+    for _ in range(200):
+        s = [rng.choice(alphabet) for _ in range(n)]
+        tri = set()
+        ok = True
+        for i in range(n - 2):
+            t = (s[i], s[i + 1], s[i + 2])
+            if t in tri:
+                ok = False
+                break
+            tri.add(t)
+        if ok:
+            return s
+    return s
+
+
+def repeat_item(rng, gap, length, as_bytes):
+    """HEAD + FILLER + HEAD: a phrase of `length` bytes repeated after exactly `gap` other bytes"""
+    if as_bytes:
+        head = bytes(_unique_trigram_seq(rng, list(range(128, 256)), length))
+        fill = bytes(_unique_trigram_seq(rng, list(range(1, 92)) + list(range(93, 128)), gap))
+        v = head + fill + head
+    else:
+        head = "".join(_unique_trigram_seq(rng, list("abcdefghijklmnopqrstuvwxyz0123456789+-*/=<>.,;:!@#$%^&()[]{}|~_"), length))
+        fill = "".join(_unique_trigram_seq(rng, list("ABCDEFGHIJKLMNOPQRSTUVWXYZ "), gap))
+        v = head + fill + head
+    return (repr(v), v)
+
+
+def codec_cases(ctx, P):
+    s, m, ml = P["shortMax"], P["midOffLim"], P["midLenLim"]
+    lo, mm = P["longOffLim"], P["maxMatch"]
+    gaps_small = sorted(set([0, 1, 2] + list(range(s - 1, s + 4)) + list(range(2 * s, 2 * s + 5)) + list(range(3 * s + 1, 3 * s + 6))
+                            + list(range(4 * (s + 1) - 2, 4 * (s + 1) + 3)) + list(range(s + m - 1, s + m + 5))))
+    lens_all = sorted(set([3, 4, 5, ml + 1, ml + 2, ml + 3, ml + 4, ml + 5, 130, 131, 132, mm - 1, mm, mm + 1, mm + 42]))
+    lens_few = sorted(set([4, ml + 2, ml + 3, 131])) if ctx.quick else sorted(set([3, 4, ml + 2, ml + 3, ml + 4, 131, mm, mm + 1]))
+    cases = []
+    for g in gaps_small:
+        near_short = s - 1 <= g <= s + 3
+        for L in (lens_all if near_short or not ctx.quick else lens_few):
+            cases.append((g, L))
+    big_g = [lo + s, lo + s + 1] if ctx.quick else [lo + s - 1, lo + s, lo + s + 1, lo + s + 2]
+    for g in big_g:
+        for L in ([4, ml + 3] if ctx.quick else [3, 4, ml + 2, ml + 3, mm]):
+            cases.append((g, L))
+    return cases
+
+
+def lzss_tokens(comp, dst_len):
+    """the C decoder transcribed to Python with bounds checks: (decoded bytes | None, tokens [(form, gap, length, out_pos)], error)"""
+    pos, out, toks = 0, bytearray(), []
+    n = len(comp)
+    try:
+        while True:
+            flags = comp[pos] | 0xFF00
+            pos += 1
+            while flags & 0x100:
+                if flags & 1:
+                    out.append(comp[pos])
+                    pos += 1
+                else:
+                    lo, hi = comp[pos], comp[pos + 1]
+                    pos += 2
+                    if not lo & 0x80:
+                        form, gap, ln = "short", lo, hi
+                    elif not hi & 0x80:
+                        form, gap, ln = "mid", 0x80 + (((hi << 2) & 0x180) | (lo & 0x7F)), hi & 0x1F
+                    else:
+                        form, gap, ln = "long", 0x80 + ((hi & 0x7F) << 7 | (lo & 0x7F)), comp[pos]
+                        pos += 1
+                    ln += 3
+                    ref = len(out) - gap - ln
+                    if ref < 0 or len(out) + ln > dst_len:
+                        return None, toks, "%s token gap=%d len=%d at output offset %d reads/writes outside the buffer" % (form, gap, ln, len(out))
+                    toks.append((form, gap, ln, len(out)))
+                    out += out[ref:ref + ln]
+                if len(out) >= dst_len:
+                    return bytes(out), toks, None if pos == n else "consumed %d of %d bytes" % (pos, n)
+                flags >>= 1
+    except IndexError:
+        return None, toks, "read past the end of the compressed stream"
+
+
+def run_codec(ctx, impl, mw, il, algos, cmap):
+    from Cython.LZSS import lzss_compress
+    import Cython.LZSS as LZ
+    if not LZ.__file__.startswith(ctx.stage) or not LZ.__file__.endswith(".py"):
+        raise lib.Infra("staged LZSS not in use: %s" % LZ.__file__)
+    rng = ctx.rng
+    P = lzss_thresholds(ctx.stage)
+    cases = codec_cases(ctx, P)
+    items, meta = [], []
+    for i, (g, L) in enumerate(cases):
+        it = repeat_item(rng, g, L, as_bytes=(i % 2 == 1))
+        items.append(it)
+        meta.append((g, L))
+    runs = [(repr("r" * 1000), "r" * 1000), (repr(b"xy" * 700), b"xy" * 700), (repr("abc" * 300 + "abd" * 300), "abc" * 300 + "abd" * 300),
+            (repr(b"\x00" * 5000), b"\x00" * 5000)]
+    # D-py: the real compressor on each engineered string alone, read back by the transcribed C decoder
+    hit = {}
+    for (src, v), (g, L) in zip(items + runs, meta + [(-1, -1)] * len(runs)):
+        data = v.encode("utf-8") if isinstance(v, str) else v
+        comp = bytes(lzss_compress(data))
+        dec, toks, err = lzss_tokens(comp, len(data))
+        ctx.count("K/compress-alone")
+        ctx.seen(("codec", data))
+        for form, gap, ln, _ in toks:
+            cls = (form, "gap=%d" % gap if gap <= P["shortMax"] + P["midOffLim"] + 4 or gap >= P["longOffLim"] else "gap~",
+                   "len=%d" % ln if ln in (3, 4, P["midLenLim"] + 2, P["midLenLim"] + 3, 130, 131, P["maxMatch"]) else "len~")
+            hit[cls] = hit.get(cls, 0) + 1
+        if dec != data:
+            ctx.violation("lzss-stream-misdecoded",
+                          "lzss_compress of a %d-byte phrase repeated after exactly %d other bytes is not read back by the C decoder: %s"
+                          % (L, g, err or "wrong bytes"),
+                          {"string_literal": short(src, 900), "repeat_length": L, "gap": g, "data_hex": short(data.hex(), 2400),
+                           "compressed_hex": short(comp.hex(), 600)})
+    keyg = set("gap=%d" % g for g in (P["shortMax"], P["shortMax"] + 1, P["shortMax"] + P["midOffLim"], P["shortMax"] + P["midOffLim"] + 1,
+                                       P["longOffLim"] + P["shortMax"], 0))
+    ctx.notes["codec_tokens_hit"] = {"%s/%s/%s" % k: v for k, v in sorted(hit.items()) if k[1] in keyg}
+    ctx.notes["codec_cases"] = {"thresholds": {k: P[k] for k in ("shortMax", "midOffLim", "midLenLim", "longOffLim", "maxMatch") if k in P},
+                                "engineered_repeats": len(cases)}
+    # D-c + I-art: the same strings in module tables (text and bytes), built under default (LZSS) / 0 / zlib / bz2-or-fallback / 90
+    small = [(it, m) for it, m in zip(items, meta) if m[0] < 2000]
+    large = [(it, m) for it, m in zip(items, meta) if m[0] >= 2000]
+    chunks = [small[i::2] for i in range(2)] if not ctx.quick else [small]
+    for k, ch in enumerate(chunks):
+        check_module(ctx, "codec%d" % k, [it for it, _ in ch] + runs, mw, il, algos, cmap, macros=[None, 0, 1, 2, 90])
+    if large and not ctx.quick:      # quick tier: the 16 KiB gaps are covered by the compress-alone leg above
+        pad = [(repr("r" * 40000), "r" * 40000), (repr(b"\x01\x02" * 20000), b"\x01\x02" * 20000)]   # compressible: the LZSS variant is emitted
+        check_module(ctx, "codecL", [it for it, _ in large] + pad, mw, il, algos, cmap, macros=[None, 0, 1])
+
+
 # ---------------- line coverage of the modelled Python functions
 
 
@@ -1313,7 +1458,9 @@ def run(ctx):
                 "random quote style and prefix case; non-trivial = body contains a backslash or a non-ASCII character. "
                 "B: modules of accepted literals (all forms, NUL, lone surrogates, non-BMP, 1990..4001-character strings of "
                 "backslashes/?/quotes/NUL/high bytes around the 2000-character split, 24k-40k item strings making a table >= 64 KiB, "
-                "300-33000 distinct strings) compiled once and built under CYTHON_COMPRESS_STRINGS unset/0/1/2/3/45/90/91/-1; the "
+                "300-33000 distinct strings; codec-boundary modules: a phrase of L bytes repeated after exactly G other bytes for G around every "
+                "offset threshold of lzss_compress (0..2, 126..130, 254..258, 382..386, 510..514, 638..642, 16510..16513) x L around every length "
+                "threshold (3..5, 33..37, 130..132, 257..259, 300), long runs, as str and bytes constants) compiled once and built under CYTHON_COMPRESS_STRINGS unset/0/1/2/3/45/90/91/-1; the "
                 "generated table section is read by the Lean C lexer + LZSS decoder + index walk. Distinct by (leg, input)")
     ctx.explanation = ("Theorems: (A) soundness of literal decoding for ALL bodies and kinds (accepted => CPython's value), implicit "
                        "concatenation; (B) table round trip for ALL string lists, ordering/interned invariant, #define positions, "
@@ -1378,6 +1525,8 @@ def run(ctx):
     lap("utf8")
     run_tables(ctx, impl, mw, il, algos, cmap)
     lap("tables")
+    run_codec(ctx, impl, mw, il, algos, cmap)
+    lap("codec")
     ctx.notes["line_coverage"] = line_coverage(ctx, impl)
     lap("coverage")
     if os.environ.get("C10_DEBUG"):
